@@ -964,12 +964,30 @@ def replay(prop, path):
     ctx = Ctx(prop, "quick", 1)
     try:
         ctx.build()
+        with open(path) as f:
+            m = json.load(f)
+        if m.get("record"):
+            p = subprocess.run([ctx.harness, "run1", path], capture_output=True, text=True)
+            sys.stdout.write(p.stdout)
+            sys.stderr.write(p.stderr)
+            return p.returncode
+        if m.get("fn") not in ("Satisfies", "ExtractLicenses", "ValidateLicenses"):
+            print("this finding is not a single call (%s); re-run ./check %s quick" % (m.get("fn"), prop))
+            return 2
+        ctx.export()
+        p = subprocess.run([ctx.harness, "run1", "-event", path, os.path.join(ctx.spec, "trace.ndjson")], capture_output=True, text=True)
+        sys.stdout.write(p.stdout)
+        if p.returncode != 0:
+            sys.stderr.write(p.stderr)
+            return 2
+        found = ctx.validate_trace("replay")
+        print("recorded:", json.dumps({k: m.get(k) for k in ("what", "fn", "expr", "list", "expected", "observed")}))
+        if [x for x in found if x["what"] == m.get("what")]:
+            print("SpdxTrace.tla rejects the event again: %s" % sorted({x["what"] for x in found}))
+            print("VIOLATION property=%s replay=%s" % (prop, path))
+            return 1
+        print("the specification accepts the event on the current tree (other reasons: %s)" % sorted({x["what"] for x in found}))
+        return 0
     except Infra as e:
         log(e)
         return 2
-    with open(path) as f:
-        m = json.load(f)
-    p = subprocess.run([ctx.harness, "run1", path], capture_output=True, text=True)
-    sys.stdout.write(p.stdout)
-    sys.stderr.write(p.stderr)
-    return p.returncode
